@@ -1,0 +1,33 @@
+//go:build verif
+
+package rsql
+
+// Verification hooks for property C11 (add-only, compiled only with -tags verif).
+
+// VerifTok is one token of the lexer's stream as the parser sees it.
+type VerifTok struct {
+	Type  int
+	Value string
+	Pos   int
+}
+
+// VerifLexTokens runs the real Lexer.NextToken over input until TokenEOF (at most max calls)
+// and returns the tokens before the EOF token, the position reported by the EOF token, and
+// whether EOF was reached within max calls.
+func VerifLexTokens(input string, max int) (toks []VerifTok, eofPos int, reached bool) {
+	l := NewLexer(input)
+	l.SetErrorRecovery(NewErrorRecovery(nil))
+	for i := 0; i < max; i++ {
+		t := l.NextToken()
+		if t.Type == TokenEOF {
+			return toks, t.Pos, true
+		}
+		toks = append(toks, VerifTok{Type: int(t.Type), Value: t.Value, Pos: t.Pos})
+	}
+	return toks, -1, false
+}
+
+// VerifParseStmt exposes the statement AST produced by Parser.Parse (before ToStreamConfig).
+func VerifParseStmt(sql string) (*SelectStatement, error) {
+	return NewParser(sql).Parse()
+}
